@@ -163,6 +163,12 @@ func (o *caseOracle) afterReq(r Req, res ReqResult, linked int, post snapshot, i
 				shape = "new-session"
 			}
 			o.dist["wrong-session-header-accepted:"+shape]++
+			if shape == "new-session" && (r.Method == "setup" || r.Method == "announce") {
+				// SETUP / ANNOUNCE carrying an unknown Session id on a connection without a session are
+				// treated as requests without Session header (deliberate in the library: retries after a
+				// redirect carry the id of another server); the property does not demand a refusal
+				goto addressed
+			}
 			o.violate("a request whose Session header names no session of this server is refused",
 				"sess-wrong-session-accepted:"+shape,
 				fmt.Sprintf("%s with a Session header that names no live session answered %d (Session header of the response: %s; connection associated with session %d before the request)",
@@ -170,6 +176,7 @@ func (o *caseOracle) afterReq(r Req, res ReqResult, linked int, post snapshot, i
 		}
 	}
 
+addressed:
 	// which session did the request address?
 	target := linked
 	if target < 0 && r.Sid != "n" && r.Sid != "w" {
@@ -293,7 +300,7 @@ func (o *caseOracle) afterBatch(b BatchResult, post snapshot, in *instance) {
 		if i < b.Answered && r.Sid == "w" && r.Method != "describe" && strings.HasPrefix(b.Lines[i], "st 2") {
 			shape := "pipelined"
 			if (r.Method == "setup" || r.Method == "announce") && post.opened > o.prev.opened {
-				shape = "new-session"
+				continue // legal: handled like a request without Session header (see afterReq)
 			}
 			o.violate("a request whose Session header names no session of this server is refused",
 				"sess-wrong-session-accepted:"+shape, fmt.Sprintf("pipelined %s with an unknown Session header: %s", r.Method, b.Lines[i]))
